@@ -458,7 +458,7 @@ fn gen_long(r: &mut Rng, kind: usize) -> Vec<u8> {
     let mut toks: Vec<Vec<u8>> = vec![b"en".to_vec()];
     if kind == 6 {
         // many thousands of consecutive separators (recursion per empty subtag, quadratic rescans)
-        let run = *r.pick(&[60_000usize, 120_000, 250_000]);
+        let run = *r.pick(&[40_000usize, 60_000, 120_000]);
         let mut v = b"en".to_vec();
         if r.chance(1, 2) { v.extend_from_slice(b"-u-foo"); }
         v.extend(std::iter::repeat(if r.chance(1, 2) { b'-' } else { b'_' }).take(run));
